@@ -1291,3 +1291,65 @@ Proof.
   - unfold pieces. cbn [nth]. rewrite Hh. reflexivity.
   - unfold pieces, P_PATH_PREFIX. cbn [nth]. unfold path_prefix. destruct (uhost u); [reflexivity|discriminate].
 Qed.
+
+(* ---------------------------------------------------------------------------------- *)
+(* hash("") / search("") / port("") on a URL whose path is a list: clear_part (+ strip, a no-op) *)
+(* ---------------------------------------------------------------------------------- *)
+
+Lemma flags_clear_fragment u : N.ldiff (flags_of u) (N.shiftl 1 10) = flags_of (set_fragment u None).
+Proof.
+  unfold flags_of, set_fragment, has_opaque_path. cbn [uhost port query fragment path is_some].
+  destruct (uhost u) as [[| | | |]|]; destruct (port u); destruct (query u); destruct (fragment u); destruct (path u); reflexivity.
+Qed.
+Lemma flags_clear_query u : N.ldiff (flags_of u) (N.shiftl 1 9) = flags_of (set_query u None).
+Proof.
+  unfold flags_of, set_query, has_opaque_path. cbn [uhost port query fragment path is_some].
+  destruct (uhost u) as [[| | | |]|]; destruct (port u); destruct (query u); destruct (fragment u); destruct (path u); reflexivity.
+Qed.
+Lemma flags_clear_port u : N.ldiff (flags_of u) (N.shiftl 1 6) = flags_of (set_port u None).
+Proof.
+  unfold flags_of, set_port, has_opaque_path. cbn [uhost port query fragment path is_some].
+  destruct (uhost u) as [[| | | |]|]; destruct (port u); destruct (query u); destruct (fragment u); destruct (path u); reflexivity.
+Qed.
+Lemma opaque_bit u : r_has_opaque_path (repr_of u) = has_opaque_path u.
+Proof.
+  unfold r_has_opaque_path, repr_of, flags_of, has_opaque_path. cbn [r_flags].
+  destruct (uhost u) as [[| | | |]|]; destruct (port u); destruct (query u); destruct (fragment u); destruct (path u); reflexivity.
+Qed.
+
+Theorem hash_clear_repr u file : scheme u <> [] -> has_opaque_path u = false ->
+  s_r (run true (init_sst (repr_of u) file) [OClearPart P_FRAGMENT; OStrip]) = repr_of (set_fragment u None).
+Proof.
+  intros Hs Hop.
+  change [OClearPart P_FRAGMENT; OStrip] with ([OClearPart P_FRAGMENT] ++ [OStrip]). rewrite run_snoc.
+  assert (H1 : s_r (run true (init_sst (repr_of u) file) [OClearPart P_FRAGMENT]) = repr_of (set_fragment u None)).
+  { rewrite repr_of_conc.
+    rewrite (setter_clear_part (pieces u) 11 (flags_of u) (segs_of u) file P_FRAGMENT (pieces_PW u Hs)) by (unfold P_FRAGMENT; lia).
+    unfold P_FRAGMENT. cbn [Nat.ltb Nat.leb N.of_nat Pos.of_succ_nat Pos.succ]. rewrite repr_of_conc, (pieces_set_fragment u None).
+    change (N.pos 10) with 10. rewrite flags_clear_fragment. reflexivity. }
+  cbn [step]. unfold do_strip. rewrite H1, opaque_bit. unfold set_fragment, has_opaque_path in *. cbn [path].
+  destruct (path u); [discriminate|]. cbn [andb]. exact H1.
+Qed.
+
+Theorem search_clear_repr u file : scheme u <> [] -> has_opaque_path u = false ->
+  s_r (run true (init_sst (repr_of u) file) [OClearPart P_QUERY; OStrip]) = repr_of (set_query u None).
+Proof.
+  intros Hs Hop.
+  change [OClearPart P_QUERY; OStrip] with ([OClearPart P_QUERY] ++ [OStrip]). rewrite run_snoc.
+  assert (H1 : s_r (run true (init_sst (repr_of u) file) [OClearPart P_QUERY]) = repr_of (set_query u None)).
+  { rewrite repr_of_conc.
+    rewrite (setter_clear_part (pieces u) 11 (flags_of u) (segs_of u) file P_QUERY (pieces_PW u Hs)) by (unfold P_QUERY; lia).
+    unfold P_QUERY. cbn [Nat.ltb Nat.leb N.of_nat Pos.of_succ_nat Pos.succ]. rewrite repr_of_conc, (pieces_set_query u None).
+    change (N.pos 9) with 9. rewrite flags_clear_query. reflexivity. }
+  cbn [step]. unfold do_strip. rewrite H1, opaque_bit. unfold set_query, has_opaque_path in *. cbn [path].
+  destruct (path u); [discriminate|]. cbn [andb]. exact H1.
+Qed.
+
+Theorem port_clear_repr u file : scheme u <> [] -> is_some (uhost u) = true ->
+  s_r (run true (init_sst (repr_of u) file) [OClearPart P_PORT]) = repr_of (set_port u None).
+Proof.
+  intros Hs Hh. rewrite repr_of_conc.
+  rewrite (setter_clear_part (pieces u) 11 (flags_of u) (segs_of u) file P_PORT (pieces_PW u Hs)) by (unfold P_PORT; lia).
+  unfold P_PORT. cbn [Nat.ltb Nat.leb N.of_nat Pos.of_succ_nat Pos.succ]. rewrite repr_of_conc, (pieces_set_port u None Hh).
+  change (N.pos 6) with 6. rewrite flags_clear_port. reflexivity.
+Qed.
